@@ -17,6 +17,9 @@ from .. import canon as cn
 from .. import cbuild, core
 
 LEVEL = "exploration"
+LEVEL_TEXT = ("Differential exploration of the two build configurations: exhaustive for the 13-bit / 11-bit code domains and DF/TC, "
+              "dense for cprNL, sampled for frames; every decoder of the library compared between a process that selected the "
+              "sanitised C twin at import time and a helper process that selected the Python twin.")
 TECHNIQUE = "runtime monitoring: differential execution of the sanitised (ASan+UBSan) C twin against the Python module"
 LEVEL_RULE = (
     "The C translation of the current c_common.pyx (proved in sync by its embedded source annotations) is compiled with clang "
